@@ -257,22 +257,65 @@ def earlyCancel (c : Cfg) (t : Tid) : Bool :=
 
 def b01 (b : Bool) : String := if b then "1" else "0"
 
-def obsW (w : Worker) : String :=
-  s!"{b01 (w.pc != .created)}{b01 w.running}{b01 (w.pc == .done)}:{w.calls}"
+structure ObsW where
+  started : Bool
+  running : Bool
+  done : Bool
+  calls : Nat
+  deriving DecidableEq, Repr, Inhabited
 
-def obsStr (c : Cfg) : String :=
-  let t := match c.thread with
+structure Obs where
+  thread : Option Nat
+  nret : Nat
+  crashed : Bool
+  ws : List ObsW
+  deriving DecidableEq, Repr, Inhabited
+
+def obsW (w : Worker) : ObsW :=
+  { started := w.pc != .created, running := w.running, done := w.pc == .done, calls := w.calls }
+
+def obs (c : Cfg) : Obs :=
+  { thread := c.thread, nret := c.nret, crashed := c.cpc == .crashed,
+    ws := (List.range c.nw).map fun i => obsW (c.ws i) }
+
+def ObsW.render (w : ObsW) : String := s!"{b01 w.started}{b01 w.running}{b01 w.done}:{w.calls}"
+
+/-- the text form the harness prints for the real objects -/
+def Obs.render (o : Obs) : String :=
+  let t := match o.thread with
     | none => "N"
     | some k => toString k
-  let ws := (List.range c.nw).map fun i => obsW (c.ws i)
-  s!"T={t};R={c.nret};X={b01 (c.cpc == .crashed)};W={"/".intercalate ws}"
+  s!"T={t};R={o.nret};X={b01 o.crashed};W={"/".intercalate (o.ws.map ObsW.render)}"
+
+def obsStr (c : Cfg) : String := (obs c).render
+
+def WPc.code : WPc → Nat
+  | .created => 0 | .held => 1 | .arm => 2 | .loop => 3 | .slp => 4 | .chk => 5 | .ret => 6
+  | .try_ => 7 | .call => 8 | .done => 9
+
+def CPc.code : CPc → Nat
+  | .st2 => 0 | .st3 => 1 | .st4 => 2 | .st5a => 3 | .st6 => 4 | .st5b => 5 | .st7 => 6 | .st8 => 7
+  | .bs7 => 8 | .bs8 => 9 | .st9 => 10 | .st11 => 11 | .sp2 => 12 | .sp3a => 13 | .sp4 => 14
+  | .sp3b => 15 | .sp6 => 16 | .sp7 => 17 | .sp8 => 18 | .cn2 => 19 | .sp9 => 20 | .sp10 => 21
+  | .sp11 => 22 | .sp11w => 23 | .sp12 => 24 | .sp13 => 25 | .gr2 => 26 | .gr3 => 27 | .done => 28
+  | .crashed => 29
+
+def Call.code : Call → Nat
+  | .start => 0 | .stop => 1 | .graceful => 2
+
+def GPhase.code : GPhase → Nat
+  | .none => 0 | .inStop => 1 | .inStart => 2
+
+def optCode (f : α → Nat) : Option α → Nat
+  | none => 0
+  | some a => f a + 1
 
 /-- identifies a configuration up to the fields the step function reads (duplicate removal in the
     subset construction; completeness only, soundness does not depend on it) -/
 def keyStr (c : Cfg) : String :=
-  let ws := (List.range c.nw).map fun i =>
+  let ws := (List.range c.nw).foldl (fun acc i =>
     let w := c.ws i
-    s!"{repr w.pc}{b01 w.running}{w.calls}{b01 w.stopRet}{w.after}"
-  s!"{repr c.thread}|{",".intercalate ws}|{repr c.cpc}|{repr c.g}|{c.todo.length}|{c.tgt}|{repr c.cur}|{repr c.lastRet}|{c.nret}|{repr c.cancelled}"
+    acc ++ s!"{w.pc.code}.{b01 w.running}{b01 w.stopRet}{w.calls}.{w.after},") ""
+  s!"{optCode id c.thread}|{ws}|{c.cpc.code}|{c.g.code}|{c.todo.length}|{c.tgt}|{optCode Call.code c.cur}|{optCode Call.code c.lastRet}|{c.nret}|{optCode id c.cancelled}"
 
 end CpModel.Monitor
